@@ -15,6 +15,7 @@ import random
 from typing import Any
 
 from sim import crypto as C
+from sim import e2e as E
 from sim import dsworld as D
 from sim import wire as W
 from sim.world import Run
@@ -33,7 +34,11 @@ REAL = ["xknx.cemi.CEMIHandler", "xknx.secure.data_secure.DataSecure", "xknx.cor
 STUB = ["KNXIPInterface stubs + bus (hand-offs may fail after the frame went out)",
         "reference device (sim.crypto) encrypting arbitrary inner content and opening every outgoing secured frame as a peer "
         "with a replay table", "loop (SimLoop)"]
-ASSUMPTIONS = ["inner APDU classes sampled from the APCI families of xknx/telegram/apci.py (short, truncated, over-long, unknown)"]
+REAL = REAL + ["whole-stack mode (1 run in 10): " + ", ".join(E.REAL) + ", KNXIPInterface start/stop setting up Data Secure from the keyring"]
+STUB = STUB + ["whole-stack mode: " + ", ".join(E.STUB) + ", keyring (stand-in answering DataSecure.init_from_keyring)"]
+ASSUMPTIONS = ["whole-stack mode: plain and genuine secured group writes to a keyed address through a real tunnel, also while the "
+               "same XKNX object is stopped (waiting for its DisconnectResponse) and started again",
+               "inner APDU classes sampled from the APCI families of xknx/telegram/apci.py (short, truncated, over-long, unknown)"]
 
 APCI_HEADS = [0x0000, 0x0040, 0x0080, 0x00C0, 0x0100, 0x0140, 0x0180, 0x01C0, 0x01C8, 0x01C9, 0x01CA, 0x01CC, 0x01CD, 0x01CE,
               0x01CF, 0x0200, 0x0240, 0x0280, 0x02C0, 0x02C1, 0x02C2, 0x02C7, 0x02C8, 0x02D1, 0x02D2, 0x02D3, 0x02D4, 0x02D5,
@@ -47,6 +52,10 @@ def preflight():
 
 
 def gen(seed: int, tier: str) -> dict[str, Any]:
+    if seed % 10 == 7:
+        # one run in 10: the whole stack (sim/e2e.py, Data Secure variant) - the key material is set up and torn down by
+        # KNXIPInterface.start()/stop() while frames keep arriving through a real tunnel
+        return E.gen(seed, tier, "C18")
     rng = random.Random(seed)
     ops = []
     for i in range(rng.choice([5, 12, 25])):
@@ -85,6 +94,10 @@ def gen(seed: int, tier: str) -> dict[str, Any]:
 
 
 def run(plan: dict[str, Any]) -> dict[str, Any]:
+    if plan["config"].get("mode") == "e2e":
+        R, obs = E.run(plan)
+        E.judge_c18(R, obs)
+        return E.finish(R, obs)
     from xknx.devices import Switch
     from xknx.dpt import DPTArray
     from xknx.telegram import GroupAddress, IndividualAddress, Telegram, tpci as T
